@@ -525,6 +525,17 @@ func (s *expSession) runOps1(i int, op plan.Op) {
 			}
 			s.env.Count("probe.set_prepared_and_left_empty", 1)
 		}
+	case "emptysend":
+		// ... or it is sent as it is: a Data Set without records. Whatever the exporter makes of it, a
+		// call that reports success has written one message of the size it reports
+		if ti := s.tmpls[int(op.A)]; ti != nil {
+			s.set.ResetSet()
+			if err := s.set.PrepareSet(entities.Data, ti.ID); err != nil {
+				panic(err)
+			}
+			s.env.Count("probe.empty_data_set_sent", 1)
+			s.send(callRec{Op: i, Kind: "emptydata", Slot: int(op.A), Expect: "any", Why: "a data set without records"})
+		}
 	case "data":
 		s.opData(i, op)
 	case "dataunk":
